@@ -4,6 +4,7 @@
 #include "nosv_priv.h"
 #include <stdint.h>
 #include <stdlib.h>
+#include <string.h>
 #include "chan.h"
 #include "common.h"
 #include "emu.h"
@@ -551,12 +552,25 @@ pre_type(struct emu *emu)
 		return -1;
 	}
 
+	/* The payload has the jumbo size, the type id and the label, which
+	 * must end inside the payload */
+	size_t label_off = sizeof(emu->ev->payload->jumbo.size) + 4;
+	if (emu->ev->payload_size <= label_off) {
+		err("payload too short: %zd", emu->ev->payload_size);
+		return -1;
+	}
+
 	const uint8_t *data = &emu->ev->payload->jumbo.data[0];
 	uint32_t typeid;
 	memcpy(&typeid, data, 4); /* May be unaligned */
 	data += 4;
 
 	const char *label = (const char *) data;
+
+	if (memchr(label, '\0', emu->ev->payload_size - label_off) == NULL) {
+		err("label without end");
+		return -1;
+	}
 
 	struct nosv_proc *proc = EXT(emu->proc, 'V');
 	struct task_info *info = &proc->task_info;
